@@ -127,6 +127,78 @@ def series_sweep(rep, rng, n):
             rep.property_failure(c, "SeriesSchema.validate succeeded without parsing options but returned a different series")
 
 
+def unique_groups_sweep(rep, rng, n):
+    """`DataFrameSchema(unique=[[...], [...]])`: several joint-uniqueness groups, optional columns that are absent, every
+    `report_duplicates` setting — verdict, reported group and offending rows against Lean's `firstDupGroup`
+    (theorem `firstDupGroup_none_iff`: every group with a present column is enforced)"""
+    import warnings
+    import pandas as pd
+    import pandera as pa
+    names = ["a", "b", "c", "d"]
+    cases = []
+    for _ in range(n):
+        nrows = rng.randint(0, 5)
+        present = [x for x in names if rng.random() < 0.7]
+        cols = []
+        for x in present:
+            dtype = rng.choice(["int64", "str", "float64"])
+            pool = A.POOL[dtype][:2] + ([A.NULL] if dtype == "float64" else [])
+            cols.append({"name": x, "dtype": dtype, "vals": [rng.choice(pool) for _ in range(nrows)]})
+        groups = [rng.sample(names, rng.randint(1, 3)) for _ in range(rng.randint(1, 3))]
+        fr = {"cols": cols, "index": A.default_index(nrows), "nrows": nrows}
+        cases.append({"mode": "uniqueGroups", "groups": groups, "keep": rng.choice(["first", "last", "none"]), "frame": fr,
+                      "flat": len(groups) == 1 and rng.random() < 0.5})
+    ans = run_driver("C01", [{k: c[k] for k in ("mode", "groups", "keep", "frame")} for c in cases])
+    for c, a in zip(cases, ans):
+        if "error" in a:
+            rep.correspondence_break(c, "driver: " + a["error"])
+            continue
+        if not a["wf"]:
+            continue
+        df = A.frame_of(c["frame"])
+        dups = a["dups"]
+        for lazy in (False, True):
+            schema = pa.DataFrameSchema({x: pa.Column(None, required=False, nullable=True) for x in names},
+                                        unique=c["groups"][0] if c["flat"] else c["groups"],
+                                        report_duplicates=A.KEEP[c["keep"]])
+            with warnings.catch_warnings():
+                warnings.simplefilter("ignore")
+                try:
+                    schema.validate(df.copy(), lazy=lazy)
+                    got = None
+                except pa.errors.SchemaError as e:
+                    got = [e]
+                except pa.errors.SchemaErrors as e:
+                    got = list(e.schema_errors)
+                except Exception as e:  # noqa: BLE001
+                    rep.property_failure(dict(c, lazy=lazy), f"unique groups: validate raised {type(e).__name__}: {str(e)[:100]}")
+                    continue
+            rep.evaluations += 1
+            rep.count(f"unique-groups:{'reject' if got else 'accept'}:{len(c['groups'])}-groups:{len(dups)}-violated")
+            if (got is None) != (not dups):
+                rep.property_failure(dict(c, lazy=lazy),
+                                     f"unique={c['groups']} on columns {[x['name'] for x in c['frame']['cols']]}: implementation "
+                                     f"{'accepts' if got is None else 'rejects'}, the groups with a present column are "
+                                     f"{'all distinct' if not dups else 'not all distinct: ' + str(dups)}")
+                continue
+            if got is None:
+                continue
+            want = dups if lazy else dups[:1]
+            if len(got) != len(want) or any(e.reason_code.name != "DUPLICATES" for e in got):
+                rep.property_failure(dict(c, lazy=lazy), f"unique groups ({'lazy' if lazy else 'eager'}): the violated groups are "
+                                                         f"{[g for g, _ in dups]}, the errors are {[e.reason_code.name for e in got]}")
+                continue
+            for e, (subset, rows_want) in zip(got, want):
+                fc = e.failure_cases
+                rows = sorted(set(int(i) for i in fc["index"]))
+                colsn = sorted(set(str(x) for x in fc["column"]))
+                # null failure cases are dropped by the report formatter (listed region K_C02_nullDuplicates)
+                nullish = any(v == A.NULL for col in c["frame"]["cols"] if col["name"] in subset for v in col["vals"])
+                if (rows != sorted(rows_want) or colsn != sorted(subset)) and not nullish:
+                    rep.property_failure(dict(c, lazy=lazy), f"unique groups: reported columns {colsn} rows {rows}, the violated "
+                                                             f"group is {subset} at rows {sorted(rows_want)}")
+
+
 def revalidation_sweep(rep, cases, answers):
     """validation has no memory: an object that was validated (or rejected) before and has been changed in place since is
     judged like a fresh object with the same contents — same schema *object*, the returned frame / the frame attached
@@ -390,6 +462,9 @@ def run(tier, replay=None):
         if cases[0].get("mode") == "multiindex":
             multiindex_sweep(rep, rng_for(PROP, "multiindex"), 300)
             return rep.finish(rule="replay of the MultiIndex sweep (deterministic under VERIF_SEED)")
+        if cases[0].get("mode") == "uniqueGroups":
+            unique_groups_sweep(rep, rng_for(PROP, "unique-groups"), 300)
+            return rep.finish(rule="replay of the unique-groups sweep (deterministic under VERIF_SEED)")
         if cases[0].get("mode") == "series":
             series_sweep(rep, rng_for(PROP, "series"), 400)
             return rep.finish(rule="replay of the series sweep (deterministic under VERIF_SEED)")
@@ -407,6 +482,7 @@ def run(tier, replay=None):
         nullability_sweep(rep)
         series_sweep(rep, rng_for(PROP, "series"), 400 if tier == "quick" else 10000)
         multiindex_sweep(rep, rng_for(PROP, "multiindex"), 300 if tier == "quick" else 8000)
+        unique_groups_sweep(rep, rng_for(PROP, "unique-groups"), 300 if tier == "quick" else 6000)
     impl = [impl_observe(c) for c in cases]
     ans = run_driver("C01", [dict(c, depth="schemaAndData") for c in cases])
     for c, o, a in zip(cases, impl, ans):
